@@ -36,6 +36,8 @@ func ackPolicyEdges(fn *ssa.Function, base eng.VM, name string, eq bool) []eng.E
 }
 
 func runC04(c *eng.Ctx) {
+	c.Rule("R04.8", "K1")
+	ruleAckBelongsToThePublishedStream(c)
 	c.Rule("R04.7", "K2")
 	ruleFreshCommitQueuePerTerm(c)
 
